@@ -1,13 +1,16 @@
 package c08
 
 import (
+	"bytes"
 	"fmt"
 	"os"
 	"path/filepath"
+	"strconv"
 	"strings"
 	"sync"
 
 	fsv1 "github.com/cossacklabs/acra/keystore/filesystem"
+	v2api "github.com/cossacklabs/acra/keystore/v2/keystore/api"
 	backendapi "github.com/cossacklabs/acra/keystore/v2/keystore/filesystem/backend/api"
 
 	"verifharness/internal/c06"
@@ -16,13 +19,23 @@ import (
 
 // Line protocol:
 //
-//	C08.v1 <cache> <mode> <k> H <op>… O <op> F <op>…
+//	C08.v1 <cache> <mode> <k> H <op>… O <op> [S <op>…] F <op>…
 //	C08.v2m …   C08.v2d …            (no <cache>)
 //
 // H: fault-free history, O: the write operation under test with the fault (mode none|err|cb|ca|torn at
-// its k-th storage call, 0-based), F: follow-up operations on the reopened store.
-// Answer: "<call>,<call>,…;<outcome>;<obs>|<obs>|…" – the storage calls the operation made (canonical
-// paths), its outcome (ok|err|crash) and the observations of the follow-up operations.
+// its k-th storage call, 0-based), S: operations on the SAME handle before the restart (only when the
+// process survives the fault: mode err/none), F: follow-up operations on the reopened store.
+// Answer: "<call>,<call>,…;<outcome>[;<S obs>|…];<obs>|<obs>|…" – the storage calls the operation made
+// (canonical paths), its outcome (ok|err|crash) and the observations of the follow-up operations.
+//
+// Write operations (O): g:<slot> dc:<slot> dr:<slot>:<i> (as in C06) and
+//
+//	i:<file>+<file>…   v1  KeyBackuper.Import of a bundle with these key files (<slot> | <slot>.pub), in this order
+//	i:<slot>+…  io:…   v2  ImportKeyRings of a bundle with these rings (default delegate | overwriting delegate)
+//	m:<slot>+…         v2  v1→v2 migration: ImportKeyFileV1 for each key, going on after an error (MigrateV1toV2)
+//	h:<slot>:<hop>     v2  ONE ring handle (OpenKeyRingRW once) – the faulted handle operation; the S section
+//	                       then holds further handle operations on the same handle: A (AddKey), C<seq>
+//	                       (SetCurrent), D<seq> (DestroyKey); their outcomes are the S observations
 
 type Scenario struct {
 	Format  c06.Format
@@ -31,6 +44,7 @@ type Scenario struct {
 	K       int
 	History []string
 	Op      string
+	Same    []string // same-handle operations before the restart
 	Follow  []string
 }
 
@@ -44,7 +58,11 @@ func (sc Scenario) Line() string {
 	default:
 		head = "C08.v2d"
 	}
-	return fmt.Sprintf("%s %s %d H %s O %s F %s", head, sc.Mode, sc.K, strings.Join(sc.History, " "), sc.Op, strings.Join(sc.Follow, " "))
+	same := ""
+	if len(sc.Same) > 0 {
+		same = " S " + strings.Join(sc.Same, " ")
+	}
+	return fmt.Sprintf("%s %s %d H %s O %s%s F %s", head, sc.Mode, sc.K, strings.Join(sc.History, " "), sc.Op, same, strings.Join(sc.Follow, " "))
 }
 
 func parseScenario(f c06.Format, a []string) Scenario {
@@ -58,7 +76,7 @@ func parseScenario(f c06.Format, a []string) Scenario {
 	sect := ""
 	for _, t := range a {
 		switch t {
-		case "H", "O", "F":
+		case "H", "O", "S", "F":
 			sect = t
 			continue
 		}
@@ -67,6 +85,8 @@ func parseScenario(f c06.Format, a []string) Scenario {
 			sc.History = append(sc.History, t)
 		case "O":
 			sc.Op = t
+		case "S":
+			sc.Same = append(sc.Same, t)
 		case "F":
 			sc.Follow = append(sc.Follow, t)
 		}
@@ -74,34 +94,47 @@ func parseScenario(f c06.Format, a []string) Scenario {
 	return sc
 }
 
-// snapshot of what a freshly opened, uncached handle reads
+// snapshot of what a handle reads: a freshly opened, uncached one (h == nil: what a restarted process
+// sees) or the handle under test itself (what the running process sees)
 type snap struct {
 	cur  map[c06.Slot]string // "err" | "<id>" | "<id>/<pubid>"
 	all  map[c06.Slot][]int
 	allE map[c06.Slot]bool
 }
 
-func takeSnap(r *c06.Runner, slots []c06.Slot) snap {
-	sn := snap{map[c06.Slot]string{}, map[c06.Slot][]int{}, map[c06.Slot]bool{}}
-	h, done, err := r.W.Fresh()
-	if err != nil {
+func takeSnap(r *c06.Runner, slots []c06.Slot, same bool) (sn snap) {
+	sn = snap{map[c06.Slot]string{}, map[c06.Slot][]int{}, map[c06.Slot]bool{}}
+	bad := func() snap {
 		for _, s := range slots {
 			sn.cur[s] = "err"
 			sn.allE[s] = true
 		}
 		return sn
 	}
+	h, done, err := r.W.HandleFor(same)
+	if err != nil {
+		return bad()
+	}
 	defer done()
+	defer func() {
+		if p := recover(); p != nil {
+			if strings.HasPrefix(fmt.Sprint(p), "harness:") {
+				panic(p)
+			}
+			sn = bad()
+		}
+	}()
 	for _, s := range slots {
 		priv, pub, err := c06.Cur(h, s)
+		var perr error
+		if s.Kind == c06.StoragePair {
+			pub, perr = c06.Pub(h, s)
+		}
 		switch {
 		case err != nil:
 			sn.cur[s] = "err"
 		case s.IsPair():
-			if s.Kind == c06.StoragePair {
-				pub, err = c06.Pub(h, s)
-			}
-			if err != nil {
+			if perr != nil {
 				sn.cur[s] = c06.IDTok(r.PrivID(s, priv)) + "/err"
 			} else {
 				sn.cur[s] = c06.IDTok(r.PrivID(s, priv)) + "/" + c06.IDTok(r.PubID(s, pub))
@@ -126,6 +159,7 @@ func takeSnap(r *c06.Runner, slots []c06.Slot) snap {
 type Result struct {
 	Calls    []string
 	Outcome  string
+	SameObs  []string
 	Obs      []string
 	Findings []c06.Finding
 }
@@ -176,11 +210,23 @@ func leftoverV2(w *c06.World) []string {
 func slotsOf(toks []string) []c06.Slot {
 	seen := map[c06.Slot]bool{}
 	var out []c06.Slot
+	add := func(s c06.Slot) {
+		if !seen[s] {
+			seen[s] = true
+			out = append(out, s)
+		}
+	}
 	for _, t := range toks {
-		op, ok := c06.ParseOp(t)
-		if ok && op.Kind != "l" && op.Kind != "r" && op.Kind != "x" && op.Kind != "o" && !seen[op.Slot] {
-			seen[op.Slot] = true
-			out = append(out, op.Slot)
+		if op, ok := c06.ParseOp(t); ok {
+			if op.Kind != "l" && op.Kind != "r" && op.Kind != "x" && op.Kind != "o" {
+				add(op.Slot)
+			}
+			continue
+		}
+		if w, ok := parseWop(t); ok {
+			for _, s := range w.slots() {
+				add(s)
+			}
 		}
 	}
 	return out
@@ -191,6 +237,163 @@ func fmtName(f c06.Format) string {
 		return "v1"
 	}
 	return "v2"
+}
+
+// halfWritten lists what sits under a FINAL key name without being a complete key: a v1 key file (current
+// or history) that does not decrypt, a v1 public key file that no generation produced, a v2 ring file
+// that does not verify, a v2 key that is not destroyed but has no readable key data.
+func halfWritten(w *c06.World, r *c06.Runner, slots []c06.Slot) map[string]bool {
+	out := map[string]bool{}
+	for _, s := range slots {
+		if w.Format == c06.V1 {
+			t := w.TruthOf(s)
+			for i, v := range t.Priv {
+				if v == nil {
+					if i == 0 && t.CurPresent {
+						out[s.String()+": the current key file does not decrypt"] = true
+					} else {
+						out[fmt.Sprintf("%s: stored version %d does not decrypt", s, i)] = true
+					}
+				}
+			}
+			if s.IsPair() {
+				for i, p := range t.Pub {
+					if len(p) != 45 || r.PubID(s, p) == 0 {
+						out[fmt.Sprintf("%s: stored public key version %d is not a complete public key (%d bytes)", s, i, len(p))] = true
+					}
+				}
+			}
+			continue
+		}
+		v := viewRing(w, s)
+		if v.FileExists && !v.Opens {
+			out[s.String()+": the ring file does not verify"] = true
+		}
+		for _, k := range v.Keys {
+			if k.State != v2api.KeyDestroyed && k.Material == nil {
+				out[fmt.Sprintf("%s: key %d (state %v) has no readable key data", s, k.Seq, k.State)] = true
+			}
+		}
+	}
+	return out
+}
+
+// judge holds what the clauses of the statement are checked against.
+type judge struct {
+	sc    Scenario
+	op    wop
+	fails func(class, format string, a ...any)
+	newID map[c06.Slot]string // identity of the generation the operation was writing, per slot
+	// destroyed: identities whose destruction was requested and may therefore be gone
+	gone map[c06.Slot]map[int]bool
+	// sameHandleLostClass: class of "a key is no longer readable THROUGH THE SAME HANDLE" when the fault hit the
+	// re-read of a cached list of historical key files (known finding); "" otherwise
+	sameHandleLostClass string
+}
+
+func (j *judge) where() string { return fmt.Sprintf("fault %s@%d in %s", j.sc.Mode, j.sc.K, j.sc.Op) }
+
+func (j *judge) targets(s c06.Slot) bool {
+	for _, t := range j.op.slots() {
+		if t == s {
+			return true
+		}
+	}
+	return false
+}
+
+// clauses 1 and 2 on a snapshot taken after the operation (view: "after restart" / "on the same handle")
+func (j *judge) clauses(pre, post snap, slots []c06.Slot, view string) {
+	j.clausesAlt(pre, nil, post, slots, view)
+}
+
+// clausesAlt: alt (may be nil) is a second admissible "before" for current keys – what the storage held when the
+// handle under test read through a cache that lagged behind it (the cache may catch up at any read: eviction)
+func (j *judge) clausesAlt(pre snap, alt *snap, post snap, slots []c06.Slot, view string) {
+	f, op, sc := fmtName(j.sc.Format), j.op, j.sc
+	same := func(s c06.Slot) bool {
+		return post.cur[s] == pre.cur[s] || (alt != nil && post.cur[s] == alt.cur[s])
+	}
+	// ---- clause 1: every key readable before still reads with the same value
+	for _, s := range slots {
+		if !j.targets(s) && !same(s) {
+			j.fails("other-key-changed:"+f, "%s changed the current key of %v (%s): %s → %s", j.where(), s, view, pre.cur[s], post.cur[s])
+		}
+		if !s.HasAll() {
+			continue
+		}
+		in := map[int]bool{}
+		for _, id := range post.all[s] {
+			in[id] = true
+		}
+		for i, id := range pre.all[s] {
+			if in[id] || j.gone[s][id] {
+				continue
+			}
+			// an import replaces the current key of its target without keeping it (no history entry)
+			if j.targets(s) && (op.Kind == "i" || op.Kind == "io") && (i == 0 || (sc.Format != c06.V1 && op.Kind == "io")) {
+				continue
+			}
+			class := "lost-keys:" + f
+			if sc.Format == c06.V1 && op.Kind == "dc" && s == op.Slot {
+				class = "destroy-current-no-promotion:v1" // C06 known finding: read-all fails without a current file
+			}
+			if j.sameHandleLostClass != "" && strings.HasPrefix(view, "same handle") && s == op.Slot {
+				class = j.sameHandleLostClass
+			}
+			j.fails(class, "after %s key %d of %v is no longer readable (%s; before %v, after %v err=%v)", j.where(), id, s, view, pre.all[s], post.all[s], post.allE[s])
+			break
+		}
+	}
+	// ---- clause 2: the key being written is its old self (or absent) or completely the new one
+	for _, s := range op.slots() {
+		newID := j.newID[s]
+		switch op.Kind {
+		case "g", "m":
+			okSet := map[string]bool{pre.cur[s]: true, newID: true}
+			if s.IsPair() {
+				okSet = map[string]bool{pre.cur[s]: true, newID + "/" + newID: true}
+			}
+			if alt != nil {
+				okSet[alt.cur[s]] = true
+			}
+			if !okSet[post.cur[s]] {
+				class := "current-corrupt:" + f
+				if s.IsPair() && sc.Format == c06.V1 && strings.HasPrefix(post.cur[s], newID+"/") {
+					class = "v1:key-pair-half-written"
+				}
+				j.fails(class, "after %s the current key of %v reads %s (%s; before: %s, new: %s): neither the old nor completely the new key", j.where(), s, post.cur[s], view, pre.cur[s], newID)
+			}
+		case "i", "io":
+			// per FILE (v1) / per RING (v2): each half of a pair is judged on its own
+			okHalf := func(got, old string) bool { return got == old || got == newID || (got == "err" && old == "err") }
+			got, old := post.cur[s], pre.cur[s]
+			ok := got == old || got == newID || got == newID+"/"+newID
+			if !ok && s.IsPair() && sc.Format == c06.V1 {
+				g, o := strings.SplitN(got+"/err", "/", 3), strings.SplitN(old+"/err", "/", 3)
+				ok = (got == "err" && (old == "err" || s.Kind == c06.PoisonPair)) || (got != "err" && okHalf(g[0], o[0]) && okHalf(g[1], o[1]))
+			}
+			if !ok {
+				j.fails("current-corrupt:"+f, "after %s the imported key of %v reads %s (%s; before: %s, new: %s): neither the old nor completely the new key", j.where(), s, got, view, old, newID)
+			}
+		case "dc":
+			if !same(s) && post.cur[s] != "err" {
+				class := "current-corrupt:" + f
+				if s.IsPair() && sc.Format == c06.V1 {
+					class = "v1:key-pair-half-destroyed"
+				}
+				j.fails(class, "after %s the current key of %v reads %s (%s; before: %s): neither intact nor absent", j.where(), s, post.cur[s], view, pre.cur[s])
+			}
+		case "dr":
+			if !same(s) {
+				j.fails("current-corrupt:"+f, "%s changed the current key of %v (%s): %s → %s", j.where(), s, view, pre.cur[s], post.cur[s])
+			}
+		}
+	}
+}
+
+func isWrite(t string) bool {
+	return strings.HasPrefix(t, "g:") || strings.HasPrefix(t, "dc:") || strings.HasPrefix(t, "dr:")
 }
 
 // RunScenario executes one fault scenario on the real keystore and judges the statement of C08.
@@ -215,152 +418,291 @@ func RunScenario(sc Scenario) Result {
 		}
 		r.Step(i, op)
 	}
-	op, ok := c06.ParseOp(sc.Op)
-	if !ok {
+	op, ok := parseWop(sc.Op)
+	if !ok || (op.Kind == "h" || op.Kind == "m" || op.Kind == "io") && sc.Format == c06.V1 {
 		panic("harness: bad op " + sc.Op)
 	}
-	slots := slotsOf(append(append(append([]string{}, sc.History...), sc.Op), sc.Follow...))
-	pre := takeSnap(r, slots)
+	f := fmtName(sc.Format)
+	slots := slotsOf(append(append(append(append([]string{}, sc.History...), sc.Op), sc.Same...), sc.Follow...))
 	fail := func(class, format string, a ...any) {
 		res.Findings = append(res.Findings, c06.Finding{Class: class, Desc: fmt.Sprintf(format, a...)})
 	}
+	j := &judge{sc: sc, op: op, fails: fail, newID: map[c06.Slot]string{}, gone: map[c06.Slot]map[int]bool{}}
+	prep := prepare(w, op)
+	defer prep.close()
+	pre := takeSnap(r, slots, false)
+	// what the handle under test itself reads before the operation (a cached v1 handle may lag behind the
+	// storage after earlier writes – that is C06's subject, not a consequence of the fault): the same-handle
+	// clauses compare like with like
+	preSame := pre
+	if len(sc.Same) > 0 && op.Kind != "h" {
+		preSame = takeSnap(r, slots, true)
+	}
+	preHalf := halfWritten(w, r, slots)
+	var preRing ringView
+	if op.Kind == "h" {
+		preRing = viewRing(w, op.Slot)
+	}
+	// identities the operation may remove
+	markGone := func(s c06.Slot, id int) {
+		if j.gone[s] == nil {
+			j.gone[s] = map[int]bool{}
+		}
+		j.gone[s][id] = true
+	}
+	switch op.Kind {
+	case "dc":
+		if len(pre.all[op.Slot]) > 0 {
+			markGone(op.Slot, pre.all[op.Slot][0])
+		}
+	case "dr":
+		if n := len(pre.all[op.Slot]); n-1-(op.Idx-2) >= 1 && n-1-(op.Idx-2) < n {
+			markGone(op.Slot, pre.all[op.Slot][n-1-(op.Idx-2)])
+		}
+	}
+	ringID := func(q int) int { // identity of key q of the handle's ring before the operation
+		for _, k := range preRing.Keys {
+			if k.Seq == q && k.Material != nil {
+				return r.PrivID(op.Slot, k.Material)
+			}
+		}
+		return 0
+	}
 
 	// ---- the operation under test
-	in.Arm(sc.Mode, sc.K)
-	res.Outcome = func() (out string) {
+	crashed := func(do func() error) (out string) {
 		defer func() {
 			if p := recover(); p != nil {
 				if _, isCrash := p.(crashSignal); isCrash {
 					out = "crash"
 					return
 				}
+				if strings.HasPrefix(fmt.Sprint(p), "harness:") {
+					panic(p)
+				}
 				out = "panic"
-				fail("panic-under-fault:"+fmtName(sc.Format), "%s panics under fault %s@%d: %v", sc.Op, sc.Mode, sc.K, p)
+				fail("panic-under-fault:"+f, "%s panics under fault %s@%d: %v", sc.Op, sc.Mode, sc.K, p)
 			}
 		}()
-		var err error
-		switch op.Kind {
-		case "g":
-			err = c06.Gen(w.H, op.Slot)
-		case "dc":
-			err = c06.DestroyCur(w.H, op.Slot)
-		case "dr":
-			err = c06.DestroyRot(w.H, op.Slot, op.Idx)
-		default:
-			panic("harness: not a write op: " + sc.Op)
-		}
-		if err != nil {
+		if err := do(); err != nil {
 			return "err"
 		}
 		return "ok"
-	}()
+	}
+	regHop := func(priv, pub []byte) { r.ConsumeIdentity(op.Slot, priv, pub) }
+	// a key whose destruction was requested may be gone whatever the call returned (an error of the final
+	// Unlock comes after the ring was replaced); what must never be seen is a key that lost its data without
+	// being destroyed – halfWritten looks for that
+	requestDestroy := func(hop string) {
+		if hop[0] == 'D' {
+			q, _ := strconv.Atoi(hop[1:])
+			markGone(op.Slot, ringID(q))
+		}
+	}
+	if op.Kind == "h" {
+		requestDestroy(op.Hop)
+	}
+	// SetCurrent through the handle: which values may the ring's current pointer have after the restart?
+	// A SetCurrent that succeeded fixes it; one that failed before the ring was replaced changes nothing; only
+	// a failure at the final Unlock (or a crash at/after the Rename) leaves both possibilities.
+	allowedCur := map[int]bool{}
+	setCurrent := func(hop, outcome, firedCall string, faulted bool) {
+		if hop[0] != 'C' {
+			return
+		}
+		q, _ := strconv.Atoi(hop[1:])
+		switch {
+		case outcome == "ok":
+			allowedCur = map[int]bool{q: true}
+		case outcome == "crash" || (faulted && firedCall == "Unlock"):
+			allowedCur[q] = true
+		}
+	}
+	in.Arm(sc.Mode, sc.K)
+	res.Outcome = crashed(func() error {
+		if op.Kind == "h" {
+			return runHop(prep.ring, op.Slot, op.Hop, regHop)
+		}
+		return runWop(w, in, op, prep)
+	})
 	in.Disarm()
 	res.Calls = in.Calls
+	if sc.Format == c06.V1 && sc.Cache != -1 && sc.Mode == ModeErr && strings.HasPrefix(in.FiredCall, "ReadDir:") {
+		j.sameHandleLostClass = "v1:stale-history-cache-after-refresh-error"
+	}
+	if op.Kind == "h" {
+		allowedCur[preRing.Current] = true
+		setCurrent(op.Hop, res.Outcome, in.FiredCall, true)
+	}
 
-	// ---- restart
-	if err := w.Open(); err != nil {
-		fail("reopen-fails:"+fmtName(sc.Format), "the keystore cannot be reopened after fault %s@%d in %s: %v", sc.Mode, sc.K, sc.Op, err)
-		return res
-	}
-	r.CacheEmptied()
-	nBefore := r.Generations(op.Slot)
-	if op.Kind == "g" {
-		t := w.TruthOf(op.Slot)
-		var priv, pub []byte
-		if len(t.Priv) > 0 && t.Priv[0] != nil && r.PrivID(op.Slot, t.Priv[0]) == 0 {
-			priv = t.Priv[0]
-		}
-		for _, p := range t.Pub {
-			if p != nil && r.PubID(op.Slot, p) == 0 && len(p) == 45 {
-				pub = p
-				break
+	// ---- identities of what the operation was writing (read from the storage, not through the store)
+	consume := func() {
+		for _, s := range op.slots() {
+			n := r.Generations(s)
+			switch op.Kind {
+			case "g":
+				t := w.TruthOf(s)
+				var priv, pub []byte
+				if len(t.Priv) > 0 && t.Priv[0] != nil && r.PrivID(s, t.Priv[0]) == 0 {
+					priv = t.Priv[0]
+				}
+				for _, p := range t.Pub {
+					if p != nil && r.PubID(s, p) == 0 && len(p) == 45 {
+						pub = p
+						break
+					}
+				}
+				r.ConsumeIdentity(s, priv, pub)
+			case "i", "io", "m":
+				v := prep.vals[s]
+				r.ConsumeIdentity(s, v.CurPriv, v.CurPub)
+			case "h":
+				continue // AddKey registered its key itself
+			default:
+				continue
 			}
+			j.newID[s] = c06.IDTok(n + 1)
 		}
-		r.ConsumeIdentity(op.Slot, priv, pub)
 	}
-	newID := c06.IDTok(nBefore + 1)
-	post := takeSnap(r, slots)
-	var left []string
-	leftClass := ""
-	if sc.Format == c06.V1 {
-		left = leftoverV1(w.Dir)
-		leftClass = "v1:leftover-temp-file"
-	} else {
-		left = leftoverV2(w)
-		leftClass = "v2:leftover-keyring-new"
+	// the process is gone – or an unlock call "failed" (was not performed): the handle still holds the store's
+	// lock, nothing else can be said about a process in that state, it is restarted
+	died := res.Outcome == "crash" || res.Outcome == "panic" || (sc.Mode == ModeErr && (in.FiredCall == "Unlock" || in.FiredCall == "RUnlock"))
+	if !died {
+		consume() // (after a crash the dead handle may still hold the store's file lock: wait for the restart)
+	}
+	leftovers := func() (left []string, class string) {
+		if sc.Format == c06.V1 {
+			return leftoverV1(w.Dir), "v1:leftover-temp-file"
+		}
+		left, class = leftoverV2(w), "v2:leftover-keyring-new"
 		if len(left) == 0 {
 			// a ring file without a current key (crash/failure between ring creation and SetCurrent)
 			for _, s := range slots {
 				if t := w.TruthOf(s); t.RingExists && t.NoCurrent {
 					left = append(left, "ring-without-current:"+s.String())
-					leftClass = "v2:ring-without-current-key"
+					class = "v2:ring-without-current-key"
 				}
 			}
+		}
+		return left, class
+	}
+	live := func(stage string, t string, o string, kind string) {
+		bad := false
+		switch kind {
+		case "l", "r", "g":
+			bad = o != "ok" && !strings.HasPrefix(o, "ok:")
+		}
+		if o == "panic" {
+			bad = true
+		}
+		if bad {
+			left, leftClass := leftovers()
+			class := "not-live:" + kind + ":" + f
+			if len(left) > 0 {
+				class = leftClass
+			}
+			fail(class, "after fault %s@%d in %s (leftover %v) the follow-up %s %s answers %s", sc.Mode, sc.K, sc.Op, left, t, stage, o)
 		}
 	}
 
-	// ---- clause 1: every key readable before still reads with the same value
-	for _, s := range slots {
-		if s != op.Slot {
-			if post.cur[s] != pre.cur[s] {
-				fail("other-key-changed:"+fmtName(sc.Format), "fault %s@%d in %s changed the current key of %v: %s → %s", sc.Mode, sc.K, sc.Op, s, pre.cur[s], post.cur[s])
-			}
-		}
-		if !s.HasAll() {
-			continue
-		}
-		in := map[int]bool{}
-		for _, id := range post.all[s] {
-			in[id] = true
-		}
-		for j, id := range pre.all[s] {
-			if in[id] {
-				continue
-			}
-			// the key the operation was asked to destroy may be gone
-			if s == op.Slot && op.Kind == "dc" && j == 0 {
-				continue
-			}
-			if s == op.Slot && op.Kind == "dr" {
-				n := len(pre.all[s])
-				if j == n-1-(op.Idx-2) && j >= 1 {
-					continue
+	// ---- the process survived (an error was returned): it goes on using the SAME handle
+	var mid snap
+	haveMid := false
+	if len(sc.Same) > 0 && !died {
+		if op.Kind == "h" {
+			for _, hop := range sc.Same {
+				if !validHop(hop) {
+					panic("harness: bad handle op " + hop)
 				}
+				requestDestroy(hop)
+				o := crashed(func() error { return runHop(prep.ring, op.Slot, hop, regHop) })
+				setCurrent(hop, o, "", false)
+				res.SameObs = append(res.SameObs, o)
 			}
-			class := "lost-keys:" + fmtName(sc.Format)
-			if sc.Format == c06.V1 && op.Kind == "dc" && s == op.Slot {
-				class = "destroy-current-no-promotion:v1" // C06 known finding: read-all fails without a current file
+		} else {
+			if op.isImport() {
+				panic("harness: same-handle follow-ups are not defined for imports")
 			}
-			fail(class, "after fault %s@%d in %s key %d of %v is no longer readable (before %v, after %v err=%v)", sc.Mode, sc.K, sc.Op, id, s, pre.all[s], post.all[s], post.allE[s])
-			break
+			// what the running process reads right after the failed operation
+			j.clausesAlt(preSame, &pre, takeSnap(r, slots, true), slots, "same handle, before restart")
+			for i, t := range sc.Same {
+				fop, ok := c06.ParseOp(t)
+				if !ok {
+					panic("harness: bad op " + t)
+				}
+				o := r.Step(500+i, fop)
+				res.SameObs = append(res.SameObs, o)
+				live("on the same handle", t, o, fop.Kind)
+			}
+			// (through an emptied cache: what the process reads from the storage it wrote)
+			r.Step(999, c06.Op{Kind: "x", Tok: "x"})
+			mid, haveMid = takeSnap(r, slots, true), true
 		}
 	}
-	// ---- clause 2: the key being written is its old self (or absent) or completely the new one
-	s := op.Slot
-	switch op.Kind {
-	case "g":
-		okSet := map[string]bool{pre.cur[s]: true, newID: true}
-		if s.IsPair() {
-			okSet = map[string]bool{pre.cur[s]: true, newID + "/" + newID: true}
-		}
-		if !okSet[post.cur[s]] {
-			class := "current-corrupt:" + fmtName(sc.Format)
-			if s.IsPair() && sc.Format == c06.V1 && strings.HasPrefix(post.cur[s], newID+"/") {
-				class = "v1:key-pair-half-written"
+
+	// ---- restart
+	if err := w.Open(); err != nil {
+		fail("reopen-fails:"+f, "the keystore cannot be reopened after fault %s@%d in %s: %v", sc.Mode, sc.K, sc.Op, err)
+		return res
+	}
+	r.CacheEmptied()
+	if died {
+		consume()
+	}
+	post := takeSnap(r, slots, false)
+	sameWrote := false
+	for _, t := range sc.Same {
+		sameWrote = sameWrote || isWrite(t) || op.Kind == "h"
+	}
+	if sameWrote {
+		// the same-handle follow-ups wrote: clause 2 was judged before them; here only "nothing readable is lost"
+		jj := *j
+		jj.op = wop{Kind: "none", Slot: op.Slot}
+		jj.clausesLost(pre, post, slots)
+	} else {
+		j.clauses(pre, post, slots, "after restart")
+	}
+	// what the process saw before the restart is what the restarted process sees
+	if haveMid {
+		for _, s := range slots {
+			if mid.cur[s] != "err" && post.cur[s] != mid.cur[s] {
+				fail("not-durable:"+f, "after %s and follow-ups on the same handle the process read %s as the current key of %v; after the restart it reads %s", j.where(), mid.cur[s], s, post.cur[s])
 			}
-			fail(class, "after fault %s@%d in %s the current key of %v reads %s (before: %s, new: %s): neither the old nor completely the new key", sc.Mode, sc.K, sc.Op, s, post.cur[s], pre.cur[s], newID)
-		}
-	case "dc":
-		if post.cur[s] != pre.cur[s] && post.cur[s] != "err" {
-			class := "current-corrupt:" + fmtName(sc.Format)
-			if s.IsPair() && sc.Format == c06.V1 {
-				class = "v1:key-pair-half-destroyed"
+			in := map[int]bool{}
+			for _, id := range post.all[s] {
+				in[id] = true
 			}
-			fail(class, "after fault %s@%d in %s the current key of %v reads %s (before: %s): neither intact nor absent", sc.Mode, sc.K, sc.Op, s, post.cur[s], pre.cur[s])
+			for _, id := range mid.all[s] {
+				if !in[id] {
+					fail("not-durable:"+f, "after %s and follow-ups on the same handle key %d of %v was readable; after the restart it is not (before %v, after %v)", j.where(), id, s, mid.all[s], post.all[s])
+					break
+				}
+			}
 		}
-	case "dr":
-		if post.cur[s] != pre.cur[s] {
-			fail("current-corrupt:"+fmtName(sc.Format), "fault %s@%d in %s changed the current key of %v: %s → %s", sc.Mode, sc.K, sc.Op, s, pre.cur[s], post.cur[s])
+	}
+	// ---- clause 2, whatever the call trace: nothing half-written under a final key name
+	for what := range halfWritten(w, r, slots) {
+		if !preHalf[what] {
+			fail("half-written-key-visible:"+f, "after %s %s: the key is neither absent nor complete", j.where(), what)
+		}
+	}
+	if op.Kind == "h" {
+		// ring level: every key of the handle's ring that was not destroyed successfully keeps its material
+		postRing := viewRing(w, op.Slot)
+		if !allowedCur[postRing.Current] {
+			fail("current-corrupt:"+f, "after %s and the handle operations %v the ring of %v has current key %d although no SetCurrent to it succeeded (ring before: %v, after: %v)", j.where(), sc.Same, op.Slot, postRing.Current, preRing, postRing)
+		}
+		for _, k := range preRing.Keys {
+			if k.Material == nil || j.gone[op.Slot][r.PrivID(op.Slot, k.Material)] {
+				continue
+			}
+			kept := false
+			for _, k2 := range postRing.Keys {
+				kept = kept || (k2.Seq == k.Seq && bytes.Equal(k2.Material, k.Material))
+			}
+			if !kept {
+				fail("lost-keys:"+f, "after %s and the handle operations %v key %d of %v lost its material although no destruction of it succeeded (ring before: %v, after: %v)", j.where(), sc.Same, k.Seq, op.Slot, preRing, postRing)
+			}
 		}
 	}
 	// ---- clause 3: the keystore keeps accepting reads, listings and further writes
@@ -371,24 +713,35 @@ func RunScenario(sc Scenario) Result {
 		}
 		o := r.Step(1000+i, fop)
 		res.Obs = append(res.Obs, o)
-		bad := false
-		switch fop.Kind {
-		case "l", "r", "g":
-			bad = o != "ok" && !strings.HasPrefix(o, "ok:")
-		}
-		if o == "panic" {
-			bad = true
-		}
-		if bad {
-			class := "not-live:" + fop.Kind + ":" + fmtName(sc.Format)
-			if len(left) > 0 {
-				class = leftClass
-			}
-			fail(class, "after fault %s@%d in %s (leftover %v) the follow-up %s answers %s", sc.Mode, sc.K, sc.Op, left, t, o)
-		}
+		live("after restart", t, o, fop.Kind)
 	}
 	r.ResetFindings()
 	return res
+}
+
+// clausesLost: clause 1 only (used when later writes make clause 2 meaningless for the snapshot)
+func (j *judge) clausesLost(pre, post snap, slots []c06.Slot) {
+	f := fmtName(j.sc.Format)
+	for _, s := range slots {
+		if !s.HasAll() {
+			continue
+		}
+		in := map[int]bool{}
+		for _, id := range post.all[s] {
+			in[id] = true
+		}
+		for _, id := range pre.all[s] {
+			if in[id] || j.gone[s][id] {
+				continue
+			}
+			class := "lost-keys:" + f
+			if j.sc.Format == c06.V1 && strings.HasPrefix(j.sc.Op, "dc:") && s == j.op.Slot {
+				class = "destroy-current-no-promotion:v1"
+			}
+			j.fails(class, "after %s and the follow-ups %v on the same handle key %d of %v is no longer readable (before %v, after %v err=%v)", j.where(), j.sc.Same, id, s, pre.all[s], post.all[s], post.allE[s])
+			break
+		}
+	}
 }
 
 var (
@@ -416,6 +769,13 @@ func runLine(f c06.Format, a []string) string {
 	obs := strings.Join(res.Obs, "|")
 	if obs == "" {
 		obs = "-"
+	}
+	if len(parseScenario(f, a).Same) > 0 {
+		same := strings.Join(res.SameObs, "|")
+		if same == "" {
+			same = "-"
+		}
+		return calls + ";" + res.Outcome + ";" + same + ";" + obs
 	}
 	return calls + ";" + res.Outcome + ";" + obs
 }
